@@ -85,7 +85,7 @@ theorem sort_unique (l s : List (Item β)) (h : SibsOk (l.map (·.1))) (hp : s.P
 /-- **msi_digest_ignores_signature.** Two root storages with the same root entry whose children, *apart from
     the entries named "\005DigitalSignature" / "\005MsiDigitalSignatureEx"*, are the same up to `ListDir` order
     (adding, replacing or deleting the signature streams – `InsertMSISignature` – and the re-balancing of the
-    directory tree that goes with it) feed the same bytes to the hash and to the pre-hash; both trees satisfying
+    directory tree that goes with it; entries of those names *below* the root are content) feed the same bytes to the hash and to the pre-hash; both trees satisfying
     the hypotheses of `msi_order_eq_spec`. -/
 theorem msi_digest_ignores_signature (m : Meta) (c₁ c₂ : Bytes) (kids₁ kids₂ : List Node)
     (h₁ : Node.okAt true (.mk m c₁ kids₁)) (h₂ : Node.okAt true (.mk m c₂ kids₂)) (hr : m.typ = typRoot)
@@ -129,21 +129,29 @@ example : hashMsiDir C05.sampleRoot =
     hashMsiDir (.mk (C05.mkMeta [82] 4 5) [] [C05.leaf [98] [1], C05.leaf [97] [2], C05.leaf [97, 98] [3],
       C05.dir [83] [C05.leaf [122] [4], C05.leaf [121] [5]], C05.leaf sigExName [7], C05.leaf sigName [8]]) := by rfl
 
-/-- **tar_equals_direct.** For every hash function `H`, plain and extended: whenever `MsiToTar` succeeds on a
-    tree, `DigestMSI` succeeds on it and the byte stream `DigestMsiTar` feeds to the hash from the tar members is the
-    byte stream `DigestMSI` feeds to it.  Hypothesis `tarSafeB [] root.kids` (executable; printed by the driver for
-    every tree): every stream's tar name (path + MSI-decoded name) is a signature name exactly if its stored name is
-    one and is never "__exmeta", and no storage carries a signature name.  (archive/tar is taken to transport member
-    names and contents unchanged.)  No well-formedness of the names is needed. -/
-theorem tar_equals_direct (H : Bytes → Bytes) (ext : Bool) (root : Node) (hsafe : tarSafeB [] root.kids = true)
+/-- **tar_equals_direct.** At full strength since the repair of Fmsi-tar: for every hash function `H`, plain and
+    extended, and *every* tree: whenever `MsiToTar` succeeds, `DigestMSI` succeeds and the byte stream `DigestMsiTar` feeds
+    to the hash from the tar members is the byte stream `DigestMSI` feeds to it.  (The direct walk skips the signature
+    names in the root storage only, as the tar form does; `MsiToTar` refuses the root entries whose tar name is reserved,
+    `tarRootOkB`.  archive/tar is taken to transport member names and contents unchanged.)  No well-formedness of the
+    names is needed. -/
+theorem tar_equals_direct (H : Bytes → Bytes) (ext : Bool) (root : Node)
     (ms : List Member) (ht : msiToTar root = .ok ms) :
     digestMSI H root ext = .ok (digestMsiTar H ext ms) :=
-  msiToTar_digest H ext root hsafe ms ht
+  msiToTar_digest H ext root ms ht
 
-/-- the statement without the hypothesis -/
-def tar_equals_direct_tree_full : Prop :=
-  ∀ (H : Bytes → Bytes) (ext : Bool) (root : Node) (ms : List Member), msiToTar root = .ok ms →
-    digestMSI H root ext = .ok (digestMsiTar H ext ms)
+/-- **msiToTar_refuses.** `MsiToTar` refuses, with the tar-name error and before anything else, every tree with a
+    reserved tar name in the root storage; a tree it converts has none. -/
+theorem msiToTar_refuses (root : Node) :
+    (tarRootOkB root.kids = false → msiToTar root = .err "tar-name") ∧
+    (∀ ms, msiToTar root = .ok ms → tarRootOkB root.kids = true) := by
+  refine ⟨fun h => by unfold msiToTar; simp [h], fun ms h => msiToTar_ok_rootOk root ms h⟩
+
+/-- the statement for the ORIGINAL code (direct walk skipping the signature names in every storage, `MsiToTar`
+    refusing nothing) without its hypothesis `tarSafeB` -/
+def tar_equals_direct_tree_full_orig : Prop :=
+  ∀ (H : Bytes → Bytes) (ext : Bool) (root : Node) (ms : List Member), msiToTarOrig root = .ok ms →
+    digestMSIOrig H root ext = .ok (digestMsiTar H ext ms)
 
 /-- a root holding the stream "Plain" and a stream whose *stored* name is U+0005 followed by the MSI encoding of
     "DigitalSignature" (0x430D "Di", 0x432A "gi", 0x4137 "ta", 0x3F2F "lS", 0x42AC "ig", 0x4131 "na", 0x4637 "tu",
@@ -152,19 +160,38 @@ def encodedSigRoot : Node :=
   .mk (C05.mkMeta [82] 4 5) [] [C05.leaf [5, 0x430D, 0x432A, 0x4137, 0x3F2F, 0x42AC, 0x4131, 0x4637, 0x4235] [7, 7],
     C05.leaf [80] [1]]
 
-/-- **tar_differs_encoded_signature_name.** Without the hypothesis the statement is false: `DigestMSI` hashes the
-    content of that stream, `DigestMsiTar` takes its tar member for the signature and skips it.  The tree satisfies
-    every hypothesis of `msi_order_eq_spec`.  (Likewise: a stream named "__exmeta"; a signature name below the
-    root; a storage with a signature name – ops `tar-exmeta-name`, `nested-sig`, `sig-storage` of the harness.) -/
-theorem tar_differs_encoded_signature_name : ¬ tar_equals_direct_tree_full := by
+/-- a root holding "Plain" and the sub-storage "S" with a stream named "\005DigitalSignature" (an embedded signed
+    package) -/
+def nestedSigRoot : Node :=
+  .mk (C05.mkMeta [82] 4 5) [] [C05.dir [83] [C05.leaf sigName [9, 9], C05.leaf [120] [3]], C05.leaf [80] [1]]
+
+/-- **tar_differs_encoded_signature_name.** FINDING Fmsi-tar (repaired), a statement about the original code: without
+    the hypothesis the statement was false: `DigestMSI` hashed the content of that stream, `DigestMsiTar` takes its tar
+    member for the signature and skips it.  The tree satisfies every hypothesis of `msi_order_eq_spec`.  (Likewise: a
+    stream named "__exmeta"; a signature name below the root, `tar_differs_nested_signature_name`; a storage with a
+    signature name – ops `tar-exmeta-name`, `nested-sig`, `sig-storage` of the harness.)  The repaired `MsiToTar` refuses
+    this tree. -/
+theorem tar_differs_encoded_signature_name : ¬ tar_equals_direct_tree_full_orig := by
   intro h
   have := h (fun _ => []) false encodedSigRoot _ rfl
   revert this
   decide
 
+/-- **tar_differs_nested_signature_name.** The original code on an embedded signed package: the direct walk skipped the
+    nested stream, the tar form (and the specification) hash it.  The repaired walk agrees with both. -/
+theorem tar_differs_nested_signature_name :
+    (∃ ms, msiToTarOrig nestedSigRoot = .ok ms ∧ digestMSIOrig (fun _ => []) nestedSigRoot false ≠ .ok (digestMsiTar (fun _ => []) false ms)) ∧
+    hashMsiDirOrig nestedSigRoot ≠ .ok (Spec.MsiDigest.hashInput nestedSigRoot) ∧
+    hashMsiDir nestedSigRoot = .ok (Spec.MsiDigest.hashInput nestedSigRoot) ∧
+    (∃ ms, msiToTar nestedSigRoot = .ok ms ∧ digestMSI (fun _ => []) nestedSigRoot false = .ok (digestMsiTar (fun _ => []) false ms)) := by
+  refine ⟨⟨_, rfl, by decide⟩, by decide, by decide, ⟨_, rfl, by decide⟩⟩
+
 example : tarSafeB [] encodedSigRoot.kids = false := by decide
-example : tarSafeB [] C05.sampleRoot.kids = true := by decide
+example : tarRootOkB encodedSigRoot.kids = false := by decide
+example : msiToTar encodedSigRoot = .err "tar-name" := by decide
+example : tarRootOkB C05.sampleRoot.kids = true ∧ tarRootOkB nestedSigRoot.kids = true := by decide
 example : Node.okAt true encodedSigRoot := okAtB_sound true encodedSigRoot (by decide)
+example : Node.okAt true nestedSigRoot := okAtB_sound true nestedSigRoot (by decide)
 example : (msiToTar C05.sampleRoot).isOk = true := by decide
 
 /-- **digestMsiTar_segments.** What the driver prints for the tar path (`tarSegments`) is `DigestMsiTar`'s stream. -/
